@@ -1,6 +1,9 @@
 ---------------------------- MODULE MC_StunClient ----------------------------
 (* Model-checking instances of StunClient: small constants, message template sets. *)
-EXTENDS StunClient
+EXTENDS StunClient, Json
+CONSTANT SimDepth   \* > 0: export every behaviour of that length as a schedule ("SCHED <json>")
+
+ExportSchedules == (SimDepth > 0 /\ Len(hist) = SimDepth) => PrintT("SCHED " \o ToJson(hist))
 
 MkMsg(target, ok, cls, mi, sha, fp) ==
     [target |-> target,
@@ -29,6 +32,14 @@ AppsRich == {<<>>, <<32802, 6, 36, 32802>>, <<8, 32808, 28>>}
 
 \* schedule-focused runs: one late success response is all the server does
 MsgsSched == {MkMsg("tx", TRUE, "success", "absent", "absent", "absent")}
+\* short-term over unreliable transport (marker logic): all integrity combinations on a response to
+\* an outstanding request, one authentic and one forged indication, one late duplicate
+MsgsStSmall ==
+    {MkMsg("tx", TRUE, "success", mi, sha, "absent") :
+        mi \in {"absent", "valid", "invalid"}, sha \in {"absent", "valid", "invalid"}}
+    \cup {MkMsg("tx", TRUE, "indication", "valid", "absent", "absent"),
+          MkMsg("tx", TRUE, "indication", "invalid", "absent", "absent"),
+          MkMsg("fin", TRUE, "success", "valid", "absent", "absent")}
 MsgsA == MsgsNoMech({"absent"})
 MsgsB == MsgsNoMech({"valid", "invalid", "absent"})
 MsgsC == MsgsSt({"absent"})
